@@ -209,7 +209,7 @@ def _create_default_registry() -> OperatorRegistry:
     # Unary operators
     # Arithmetic functions
     ops.register(tokens.PLUS, "+{0}", is_prefix=True)
-    ops.register(tokens.MINUS, "-{0}", is_prefix=True)
+    ops.register(tokens.MINUS, "(-({0}))", is_prefix=True)
     ops.register(tokens.CEIL, "CEIL({0})")
     ops.register(tokens.FLOOR, "FLOOR({0})")
     ops.register(tokens.ABS, "ABS({0})")
